@@ -65,6 +65,34 @@ def seek_read_ops(pts, total, rng, count):
     return ops
 
 
+def mixed_ops(pts, total, rng, count):
+    """Positional and cursor calls interleaved on one instance: a ReadAt - inside, across the end, at or past the end, with an
+    empty buffer - must leave the cursor where the Reads and Seeks put it."""
+    ops = [{"op": "seek", "off": rng.choice(pts), "whence": 0}]
+    for _ in range(count):
+        r = rng.random()
+        if r < 0.45:
+            kind = rng.random()
+            if kind < 0.35:
+                off, n = rng.choice(pts), rng.choice([1, 100, 2048, 5000])
+            elif kind < 0.6:
+                off, n = rng.choice([total, total + 1, total + 4096, total + 70000]), rng.choice([1, 2048])
+            elif kind < 0.75:
+                off, n = rng.choice(pts), 0
+            elif kind < 0.9:
+                off, n = max(0, total - rng.choice([1, 10, 2048])), 4096      # crosses the end
+            else:
+                off, n = 0, 64
+            ops.append({"op": "readat", "off": off, "n": n})
+        elif r < 0.8:
+            ops.append({"op": "read", "n": rng.choice([1, 7, 512, 2048, 4097])})
+        else:
+            a = rng.choice(pts)
+            ops.append(rng.choice([{"op": "seek", "off": a, "whence": 0}, {"op": "seek", "off": a - total, "whence": 2},
+                                   {"op": "seek", "off": rng.choice([-2048, -1, 0, 1, 2048]), "whence": 1}]))
+    return ops
+
+
 def run(tier, seed, replay=None):
     rep = common.Report("C09", tier, seed, "model_checking")
     rng = random.Random(seed * 104729 + 9)
@@ -119,16 +147,18 @@ def run(tier, seed, replay=None):
             cases.append({"name": name + "-readat", "nodes": t, "dir": ["d"], "ops": ops, "fresh": False})
             sr = seek_read_ops(pts, total, rng, 60 if tier == "quick" else 400)
             cases.append({"name": name + "-seekread", "nodes": t, "dir": ["d"], "ops": sr})
+            cases.append({"name": name + "-mixed", "nodes": t, "dir": ["d"], "ops": mixed_ops(pts, total, rng, 80 if tier == "quick" else 400)})
             # the same through OsFs + absolute path, as make-iso opens it
             cases.append({"name": name + "-osfs", "nodes": t, "dir": ["d"], "osfs": True, "ops": sr[:40]})
-            nops += len(ops) + len(sr) + 40
+            nops += len(ops) + len(sr) + 40 + len(cases[-2]["ops"])
         B = 36      # cases per batch: bounds the size of one script / one trace
         for b in range(0, len(cases), B):
             srv.run_and_validate(ctx, cases[b:b + B], rep, module=mod, cfg=cfg, max_rejections=20)
             if len(rep.violations) >= 20:
                 break
         rep.cov["rule"] = ("trees of <=4 files with boundary sizes; every ReadAt(off, n) with off and off+n in structural "
-                           "boundaries +-1 (from the image itself; at most 1200 / 8000 per tree, sampled beyond that), plus seeded Seek/Read sequences; distinct_nontrivial = "
+                           "boundaries +-1 (from the image itself; at most 1200 / 8000 per tree, sampled beyond that), seeded Seek/Read sequences, and "
+                           "seeded interleavings of ReadAt (inside, across, at and past the end, empty) with Read and Seek; distinct_nontrivial = "
                            "accepted cases (tree x op list)")
         rep.cov["distinct_nontrivial"] = rep.cov["traces_validated_against_impl"]
         rep.cov["operations"] = nops
